@@ -83,6 +83,9 @@ def decorate(behs, rng):
                 if pending_release is None and run >= 1 and rng.random() < 0.4:
                     st["hold"] = True
                     pending_release = (i + rng.randint(1, run), st["t"])
+                elif not st.get("unwind") and "then" not in st and rng.random() < 0.15:
+                    # the handle is given up by user code inside a layer's on_event, i.e. inside a collector callback
+                    st["inside"] = "event"
                 elif not st.get("unwind") and "then" not in st and rng.random() < 0.2:
                     # user code inside the outermost layer's on_close panics for this span (the panic is caught by the owner
                     # of the handle): the span is closed all the same - gone afterwards, its parent released
@@ -179,23 +182,22 @@ def execute(behs, name):
     bins = vlib.cargo_build(["registry"])
     vlib.run_bin(bins["registry"], env={"VH_IN": w / "behaviours.ndjson", "VH_OUT": w / "trace.ndjson"}, timeout=1200)
     lines = vlib.read_ndjson(w / "trace.ndjson")
-    found, _ = trace.validate(D, "RegistryTrace", lines, name, nchunks=8, jobs=8, tags=("BAD5", "BAD6", "F2", "DRIFT"))
+    found, _ = trace.validate(D, "RegistryTrace", lines, name, nchunks=8, jobs=8, tags=("BAD5", "BAD6", "F2", "F32", "DRIFT"))
     return lines, found
 
 
 def exhaustive(out, tier):
     quick = tier == "quick"
     r = vlib.require_ok(vlib.tlc(D, "MCRegistry", cfg="MCRegistryQ" if quick else "MCRegistryT", workers=8, timeout=3000, heap="12g"),
-                        "Registry: M's observations satisfy A outside the F2 history class")
-    out.add_tlc(r, "MCRegistry exhaustive (%s): every history of <= %d operations, 2 threads, 2 registries, 3 spans, 1 capture slot; invariants Good (A's verdict on M's observation, histories containing an F2 hazard excluded by the `tainted` ghost), RefIsCounts"
+                        "Registry: M's observations satisfy A in every history (foreign and absent defaults included)")
+    out.add_tlc(r, "MCRegistry exhaustive (%s): every history of <= %d operations, 2 threads, 2 registries, 3 spans, 1 capture slot; invariants Good (A's verdict on M's observation; closes are routed through the registry's own dispatcher - ViaDefault = FALSE - so no history is excluded any more), RefIsCounts"
                 % (tier, 8 if quick else 10))
-    # the open finding F2 must still be exhibited by the model when hazards are not excluded
+    # negative control: the design before finding F2 was repaired (closes routed through the thread's current default,
+    # ViaDefault = TRUE) must violate the verdict
     r2 = vlib.tlc(D, "MCRegistry", cfg="MCRegistryF2", workers=8, timeout=900)
-    if r2.kind == "invariant":
-        out.extra["f2_counterexample_in_model"] = True
-    else:
-        out.extra["f2_counterexample_in_model"] = False
-        vlib.log("note: the model no longer exhibits F2 (stale known-findings entry?)")
+    if r2.kind != "invariant":
+        raise vlib.ToolError("negative control: the pre-F2 design (closes through the current default) was not rejected by GoodEvenIfTainted")
+    out.extra["negative_control_pre_F2_design_rejected"] = True
 
 
 def run(out, tier, prop):
@@ -204,7 +206,7 @@ def run(out, tier, prop):
     s = vlib.seed() + (5 if prop == "C05" else 6)
     behs = sim("MCRegistrySim", 400 if quick else 4000, s, out, "MCRegistrySim -simulate, default = owning registry (60 steps)")
     behs += sim("MCRegistrySimDense", 400 if quick else 4000, s + 2, out, "MCRegistrySim -simulate, dense: 2 threads, 4 spans (re-entry, out-of-order exits, drops while entered)")
-    behs += sim("MCRegistrySimForeign", 120 if quick else 1200, s + 1, out, "MCRegistrySim -simulate, foreign / absent defaults allowed (F2 history class)")
+    behs += sim("MCRegistrySimForeign", 120 if quick else 1200, s + 1, out, "MCRegistrySim -simulate, foreign / absent defaults allowed (the history class of finding F2, repaired)")
     # the history of findings/repro/f2.rs: last handle dropped while entered, exit under another registry's default
     behs.append({"src": "f2-reproducer", "steps": [
         {"op": "switch", "t": 1, "r": 1}, {"op": "new", "t": 1, "pk": "root", "p": 1}, {"op": "enter", "t": 1, "s": 1},
@@ -304,6 +306,14 @@ def judge(out, behs, lines, found, prop):
                 out.known_finding("F2", known[0]["what"])
             else:
                 out.violation("history %d op %d: close path through a foreign default: %s" % (b, pos, json.dumps(rec)[:400]), {"behaviour": behs[b], "failing_step": pos})
+    if prop == "C05":
+        known = [f for f in vlib.known_findings("C05") if f["id"] == "F32"]
+        for b, pos, rec in found.get("F32", []):
+            if known:
+                out.known_finding("F32", known[0]["what"])
+            else:
+                out.violation("history %d op %d: a handle given up inside a layer's on_event leaks the parent's reference: %s" % (b, pos, json.dumps(rec)[:400]),
+                              {"behaviour": behs[b], "failing_step": pos, "observed": rec})
     for b, pos, rec in found["DRIFT"]:
         out.drift.append("history %d op %d: observation differs from the mechanism model: %s" % (b, pos, json.dumps(rec)[:300]))
 
